@@ -267,7 +267,7 @@ def svmLine (fx : Fixes) (conv : Conv) (mem : Bytes) (lbegin lend stop : Nat) : 
       let p ← scan (fun b => Gen.Parse.svmQidDigit b.toNat) mem lend p
       pure (p, some q)
     else pure (p, none)
-  let feats ← svmFeats fx conv mem lend (mem.length + 2 - p) p []
+  let feats ← svmFeats fx conv mem lend (lend + 1 - p) p []
   return some { label := o.v1, weight, qid, feats }
 
 def svmPush (c : Container) (l : SvmLine) : Container :=
@@ -279,13 +279,20 @@ def svmPush (c : Container) (l : SvmLine) : Container :=
     index := c.index ++ l.feats.map (·.1)
     value := c.value ++ l.feats.filterMap (·.2) }
 
-def svmLoop (fx : Fixes) (conv : Conv) (mem : Bytes) (stop : Nat) : Nat → Nat → Container → Res Container
+/-- the line loop shared by LibSVMParser and LibFMParser:
+`while (lbegin != end) { lend = lbegin + 1; while (lend != end && notEol(*lend)) ++lend; <line>; lbegin = lend; }` -/
+def lineLoop {α : Type} (notEol : UInt8 → Bool) (line : Nat → Nat → Res (Option α)) (push : Container → α → Container)
+    (mem : Bytes) (stop : Nat) : Nat → Nat → Container → Res Container
   | 0, _, _ => .error .oob
   | fuel + 1, lbegin, c =>
     if lbegin = stop then .ok c else do
-    let lend ← scan (fun b => Gen.Parse.svmNotEol b.toNat) mem stop (lbegin + 1)
-    let l ← svmLine fx conv mem lbegin lend stop
-    svmLoop fx conv mem stop fuel lend (match l with | some l => svmPush c l | none => c)
+    let lend ← scan notEol mem stop (lbegin + 1)
+    let l ← line lbegin lend
+    lineLoop notEol line push mem stop fuel lend (match l with | some l => push c l | none => c)
+
+def svmLoop (fx : Fixes) (conv : Conv) (mem : Bytes) (stop : Nat) (fuel lbegin : Nat) (c : Container) : Res Container :=
+  lineLoop (fun b => Gen.Parse.svmNotEol b.toNat) (fun lbegin lend => svmLine fx conv mem lbegin lend stop) svmPush
+    mem stop fuel lbegin c
 
 /-- `--e` on an `IndexType` of `iw` bits -/
 def decIdx (iw : Nat) (e : Nat) : Nat := (e + 2 ^ iw - 1) % 2 ^ iw
@@ -324,7 +331,7 @@ def fmLine (fx : Fixes) (conv : Conv) (mem : Bytes) (lbegin lend : Nat) : Res (O
   let o ← parsePair fx conv.real conv.real mem lbegin lend
   if Gen.Parse.fmEmptyLine o.r then return none
   let weight := if Gen.Parse.fmHasWeight o.r then some o.v2 else none
-  let feats ← fmFeats fx conv mem lend (mem.length + 2 - o.endp) o.endp []
+  let feats ← fmFeats fx conv mem lend (lend + 1 - o.endp) o.endp []
   return some { label := o.v1, weight, feats }
 
 def fmPush (c : Container) (l : FmLine) : Container :=
@@ -336,13 +343,9 @@ def fmPush (c : Container) (l : FmLine) : Container :=
     index := c.index ++ l.feats.map (·.2.1)
     value := c.value ++ l.feats.filterMap (·.2.2) }
 
-def fmLoop (fx : Fixes) (conv : Conv) (mem : Bytes) (stop : Nat) : Nat → Nat → Container → Res Container
-  | 0, _, _ => .error .oob
-  | fuel + 1, lbegin, c =>
-    if lbegin = stop then .ok c else do
-    let lend ← scan (fun b => Gen.Parse.fmNotEol b.toNat) mem stop (lbegin + 1)
-    let l ← fmLine fx conv mem lbegin lend
-    fmLoop fx conv mem stop fuel lend (match l with | some l => fmPush c l | none => c)
+def fmLoop (fx : Fixes) (conv : Conv) (mem : Bytes) (stop : Nat) (fuel lbegin : Nat) (c : Container) : Res Container :=
+  lineLoop (fun b => Gen.Parse.fmNotEol b.toNat) (fun lbegin lend => fmLine fx conv mem lbegin lend) fmPush
+    mem stop fuel lbegin c
 
 def fmBlock (fx : Fixes) (conv : Conv) (iw mode : Nat) (mem : Bytes) (begin stop : Nat) : Res Container := do
   let c ← fmLoop fx conv mem stop (stop + 1 - begin) begin {}
@@ -416,7 +419,7 @@ def csvLoop (fx : Fixes) (conv : Conv) (prm : CsvParam) (mem : Bytes) (stop : Na
     if lbegin = stop then .ok c else do
     let lbegin := ignoreBOM mem lbegin stop
     let lend ← scan (fun b => Gen.Parse.csvNotEol b.toNat) mem stop (lbegin + 1)
-    let l ← csvCells fx conv prm mem lend (mem.length + 2 - lbegin) lbegin {}
+    let l ← csvCells fx conv prm mem lend (lend + 1 - lbegin) lbegin {}
     let lend ← scanRd (fun b => Gen.Parse.csvTrailIsEol b.toNat) mem stop lend
     csvLoop fx conv prm mem stop fuel lend (csvPush c l)
 
